@@ -9,6 +9,7 @@ submitter start a new monitor, against the submitter's test-and-spawn.
 from __future__ import annotations
 
 import ast
+import re
 
 from ..core import AnalysisError, FuncNode, call_name, calls_in, kwarg, last_attr, src
 from ..lockset import lock_fields
@@ -225,3 +226,90 @@ def run(ctx):
                         )
     if nlive == 0:
         raise AnalysisError("no per-thread is_alive() liveness test found in any executor start method", "executors")
+
+    # ---- C10.6 -----------------------------------------------------------
+    # A thread that moves a job out of a collection which ANOTHER thread's loop guard reads must not leave the job in none of that guard's
+    # collections while it calls anything: the other thread may evaluate its guard in that window, find no work and exit for good.
+    r6 = ctx.rule("C10.6", "a job in transit between collections read by another thread's loop guard is never in none of them across a call", floor=1)
+    ntransit = 0
+    REMOVERS = {"pop", "popleft", "popitem"}
+    for rel in sorted(r for r in repo.modules if r.startswith("redun/executors/")):
+        mod = repo.mod(rel)
+        for cname, cls in mod.classes.items():
+            rows = [row for row in table if row["class"] == cname and "note" not in row]
+            if len(rows) < 2:
+                continue
+            methods = {st.name: st for st in cls.body if isinstance(st, FuncNode)}
+            for row in rows:
+                fn = methods[row["target"]]
+                others = set()
+                for o in rows:
+                    if o["target"] != row["target"]:
+                        others |= {f for f in re.findall(r"self\.(\w+)", o["loop_guard"]) if f != "is_running" and not f.startswith("_thread")}
+                if not others:
+                    continue
+                cfg6 = CFG(fn)
+                for n in cfg6.nodes:
+                    if n.kind != "stmt" or not isinstance(n.ast, (ast.Assign, ast.Expr)) or not isinstance(n.ast.value, ast.Call):
+                        continue
+                    c = n.ast.value
+                    if not (isinstance(c.func, ast.Attribute) and c.func.attr in REMOVERS and isinstance(c.func.value, ast.Attribute) and src(c.func.value.value) == "self" and c.func.value.attr in others):
+                        continue
+                    var = src(n.ast.targets[0]) if isinstance(n.ast, ast.Assign) else None
+                    ntransit += 1
+                    if var is None:
+                        # `self.q.popleft()` as a statement discards the element: fine when the job was put into a guard collection just before
+                        # (same block) or when the thread gives up on it (`raise` follows)
+                        blk = mod.parent.get(n.ast)
+                        sibs = []
+                        for fld in ("body", "orelse", "finalbody"):
+                            b = getattr(blk, fld, None)
+                            if isinstance(b, list) and n.ast in b:
+                                sibs = b
+                        i = sibs.index(n.ast) if n.ast in sibs else -1
+                        prev_put = any(
+                            isinstance(w, ast.Assign) and any(isinstance(t, ast.Subscript) and isinstance(t.value, ast.Attribute) and t.value.attr in others for t in w.targets)
+                            or (isinstance(w, ast.Expr) and isinstance(w.value, ast.Call) and isinstance(w.value.func, ast.Attribute) and w.value.func.attr in ("append", "appendleft", "add") and isinstance(w.value.func.value, ast.Attribute) and w.value.func.value.attr in others)
+                            for w in sibs[:i]
+                        )
+                        gives_up = i >= 0 and i + 1 < len(sibs) and isinstance(sibs[i + 1], ast.Raise)
+                        if prev_put or gives_up:
+                            r6.good(f"{rel}:{cname}.{row['target']}:{c.func.value.attr}:in-transit", "element registered elsewhere before it is dropped here (or the thread re-raises)")
+                            continue
+                    # forward walk until the job is put (back) into one of the other guard's collections
+                    seen, work, bad = set(), list(n.succ), None
+                    while work and bad is None:
+                        x = work.pop()
+                        if x in seen or x in (cfg6.exit, cfg6.raise_exit):
+                            continue
+                        seen.add(x)
+                        a = x.ast
+                        if x.kind == "stmt" and a is not None and not isinstance(a, (FuncNode, ast.Try, ast.With, ast.For, ast.While, ast.If)):
+                            put = False
+                            for w in ast.walk(a):
+                                if isinstance(w, ast.Assign) and any(isinstance(t, ast.Subscript) and isinstance(t.value, ast.Attribute) and t.value.attr in others for t in w.targets) and (var is None or src(w.value) == var):
+                                    put = True
+                                if isinstance(w, ast.Call) and isinstance(w.func, ast.Attribute) and w.func.attr in ("append", "appendleft", "add") and isinstance(w.func.value, ast.Attribute) and w.func.value.attr in others and w.args and (var is None or src(w.args[0]) == var):
+                                    put = True
+                            if put:
+                                continue
+                            calls = [w for w in ast.walk(a) if isinstance(w, ast.Call)]
+                            if calls:
+                                bad = calls[0]
+                                break
+                        work.extend(x.succ)
+                    r6.check(
+                        bad is None,
+                        f"{rel}:{cname}.{row['target']}:{c.func.value.attr}:in-transit",
+                        (
+                            f"{cname}.{row['target']} takes `{var or 'a job'}` out of self.{c.func.value.attr} and then calls `{src(bad)[:60]}` (line {bad.lineno}) before the job is in any of {sorted(others)}: "
+                            f"another thread of {cname} leaves its loop when those collections are all empty, so if it evaluates its guard during that call the job is registered afterwards with no thread "
+                            "left to poll it and is never reported"
+                        )
+                        if bad is not None
+                        else "",
+                        rel,
+                        n.lineno,
+                    )
+    if ntransit == 0:
+        r6.good("redun/executors:no-cross-thread-transit", "no thread removes from a collection read by another thread's loop guard")
